@@ -14,16 +14,27 @@ def parseOpts (s : String) : Opts :=
     fixSyntaxErrors := parseBool (g "fixsyn" "t"), fixWarcFieldsBlockErrors := parseBool (g "fixwf" "f"),
     defaultAlg := (g "alg" "sha1").toUTF8.toList, defaultEnc := Enc.ofCode (parseNat (g "enc" "2")) }
 
-/-- oracle table: entries kind:valuehex:bit -/
+/-- oracle table: entries kind:valuehex:bit, and gzip verdicts z:offset:status:consumed:contenthex -/
 def parseOracles (s : String) : Oracles :=
-  let entries : List (String × Bytes × Bool) := if s == "-" then [] else (s.splitOn ",").filterMap (fun e =>
-    match e.splitOn ":" with
+  let raw : List (List String) := if s == "-" then [] else (s.splitOn ",").map (fun e => e.splitOn ":")
+  let entries : List (String × Bytes × Bool) := raw.filterMap (fun e =>
+    match e with
     | [k, v, b] => some (k, hx v, b == "1")
+    | _ => none)
+  let gzs : List (Nat × Sum Tag (Bytes × Bool × Nat)) := raw.filterMap (fun e =>
+    match e with
+    | ["z", off, st, consumed, content] =>
+      some (parseNat off, if st == "ok" then .inr (hx content, false, parseNat consumed)
+        else if st == "bad" then .inr (hx content, true, parseNat consumed)
+        else if st == "eof" then .inl .eof
+        else if st == "reader" then .inl .reader
+        else .inl .other)
     | _ => none)
   let look := fun (k : String) (v : Bytes) => match entries.find? (fun e => e.1 == k && e.2.1 == v) with
     | some e => e.2.2
     | none => false
-  { time := look "t", ip := look "i", uri := look "u", http := fun r v => look (if r then "h1" else "h0") v }
+  { time := look "t", ip := look "i", uri := look "u", http := fun r v => look (if r then "h1" else "h0") v,
+    gz := fun off => (gzs.find? (fun e => e.1 == off)).map (·.2) }
 
 def kindStr : BlockKind → String
   | .generic => "generic" | .httpReq => "httpReq" | .httpResp => "httpResp" | .revisit => "revisit" | .warcFields => "warcFields"
